@@ -38,11 +38,15 @@ def actual_flags() -> list[str]:
 UNITS = {
     "nesting": dict(cmd="nesting", prefix="nesting.", langs=["python", "typescript", "javascript", "rust"], limits=[("max_nesting_depth", "depth", +1)],
                     lang_over=["max_nesting_depth"], cli={"max_nesting_depth": "--max-depth"}, guarded=["max_nesting_depth"]),
-    "srp": dict(cmd="srp", prefix="srp.", langs=["python", "typescript"], limits=[("max_methods", "methods", +1)], lang_over=["max_methods"],
-                cli={"max_methods": "--max-methods"}, guarded=["max_methods"], ignore=True),
-    "dry": dict(cmd="dry", prefix="dry.", langs=["python"], limits=[("min_duplicate_lines", "dup_lines", -1)], lang_over=["min_duplicate_lines"],
-                cli={"min_duplicate_lines": "--min-lines"}, guarded=["min_duplicate_lines"], enabled_default=False, any_count=True,
-                limit_floor=2),  # the detector never reports one-line windows (C03's subject), thresholds are swept from 2
+    # srp reports a class once, whether for its methods, its lines or both; `neutral`: values of the other measures that do not
+    # decide the outcome when one limit is examined
+    "srp": dict(cmd="srp", prefix="srp.", langs=["python", "typescript"], limits=[("max_methods", "methods", +1), ("max_loc", "loc", +1)],
+                lang_over=["max_methods", "max_loc"], cli={"max_methods": "--max-methods", "max_loc": "--max-loc"},
+                guarded=["max_methods", "max_loc"], ignore=True, neutral={"methods": 2, "loc": 22}),
+    "dry": dict(cmd="dry", prefix="dry.", langs=["python"], limits=[("min_duplicate_lines", "dup_lines", -1), ("min_occurrences", "occurrences", -1)],
+                lang_over=["min_duplicate_lines", "min_occurrences"],
+                cli={"min_duplicate_lines": "--min-lines"}, guarded=["min_duplicate_lines", "min_occurrences"], enabled_default=False, any_count=True,
+                limit_floor=2, neutral={"dup_lines": 5, "occurrences": 2}),  # the detector never reports one-line windows (C03's subject), thresholds are swept from 2
     "magic-numbers": dict(cmd="magic-numbers", prefix="magic-numbers.", langs=["python"], limits=[("max_small_integer", "range_arg", +1)],
                           lists=[("allowed_numbers", "value")], lang_over=["max_small_integer", "allowed_numbers"],
                           guarded=["max_small_integer"], ignore=True),
@@ -54,6 +58,12 @@ UNITS = {
     "stateless-class": dict(cmd="stateless-class", prefix="stateless-class.", langs=["python"], limits=[("min_methods", "methods", -1)], ignore=True),
     "collection-pipeline": dict(cmd="pipeline", prefix="collection-pipeline.", langs=["python"], limits=[("min_continues", "continues", -1)],
                                 cli={"min_continues": "--min-continues"}, guarded=["min_continues"], ignore=True),
+    # one report per file holding the repeated membership test; the third documented guard (max_values_for_enum >= min_values_for_enum)
+    # relates two options and is kept satisfied by the generator (outside the modelled domain)
+    "stringly-typed": dict(cmd="stringly-typed", prefix="stringly-typed.", langs=["python"],
+                           limits=[("min_occurrences", "occurrences", -1), ("min_values_for_enum", "values", -1), ("max_values_for_enum", "values", +1)],
+                           lang_over=["min_occurrences", "min_values_for_enum", "max_values_for_enum"],
+                           guarded=["min_occurrences", "min_values_for_enum"], ignore=True, any_count=True, neutral={"occurrences": 2, "values": 3}),
     "file-header": dict(cmd="file-header", prefix="file-header.", langs=["python"], always=["no_header"], ignore=True),
     "lazy-ignores": dict(cmd="lazy-ignores", prefix="lazy-ignores", langs=["python"], always=["noqa"]),
     "lbyl": dict(cmd="lbyl", prefix="lbyl", langs=["python"], switches=[("detect_dict_key", "dict_key_check")], switch_always=True),
@@ -64,7 +74,35 @@ UNITS = {
     "blocking-async": dict(cmd="blocking-async", prefix="blocking-async", langs=["rust"],
                            switches=[("detect_fs_in_async", "fs_in_async"), ("detect_sleep_in_async", "sleep_in_async")], switch_always=True),
 }
-METRIC_RANGE = {"depth": (2, 6), "methods": (1, 10), "dup_lines": (3, 6), "body_statements": (1, 5), "continues": (1, 3), "range_arg": (2, 40)}
+METRIC_RANGE = {"depth": (2, 6), "methods": (1, 10), "dup_lines": (3, 6), "body_statements": (1, 5), "continues": (1, 3), "range_arg": (2, 40),
+                "loc": (22, 30), "occurrences": (2, 3), "values": (2, 4)}
+ST_VALUES = ["red", "green", "blue", "amber"]
+DRY_FILES = ["case_src.py", "other_src.py", "other2_src.py"]
+
+
+def srp_natural_loc(lang: str, methods: int) -> int:
+    """code lines of the rendered class without padding"""
+    return methods + 2 if lang == "typescript" else 1 + 2 * methods
+
+
+def normalise(case: dict) -> dict:
+    """cases recorded before a measure existed: the measure the renderer produces for them"""
+    m = case["metrics"]
+    if case["unit"] == "dry":
+        m.setdefault("occurrences", 2)
+    if case["unit"] == "srp" and "methods" in m:
+        m.setdefault("loc", srp_natural_loc(case["lang"], m["methods"]))
+    return case
+
+
+def focus_metrics(u: dict, opt: str, high: int | None = None) -> dict:
+    """measures for examining limit `opt`: its own measure high, the other measures at values that do not decide the outcome"""
+    m = {mm: u["neutral"][mm] if "neutral" in u else (METRIC_RANGE[mm][1] if high is None else METRIC_RANGE[mm][1] + high)
+         for _, mm, _ in u.get("limits", [])}
+    for o, mm, _ in u.get("limits", []):
+        if o == opt:
+            m[mm] = METRIC_RANGE[mm][1] if high is None else METRIC_RANGE[mm][1] + high
+    return m
 MAGIC_VALUES = [7, 42, 60, 365, 4242]
 
 
@@ -100,14 +138,25 @@ def render_source(unit: str, lang: str, m: dict) -> dict:
             lines.append("    " * (i + 1) + "}")
         lines += ["    a", "}"]
         return {name: "\n".join(lines) + "\n"}
-    if unit == "srp" and lang == "typescript":
-        return {name: "class Widget {\n" + "".join(f"  m{i}() {{ return {i}; }}\n" for i in range(m["methods"])) + "}\n"}
     if unit == "srp":
-        return {name: "class Widget:\n" + "".join(f"    def m{i}(self):\n        return {i}\n\n" for i in range(m["methods"]))}
+        pad = m.get("loc", srp_natural_loc(lang, m["methods"])) - srp_natural_loc(lang, m["methods"])
+        if pad < 0:
+            raise ValueError("srp: loc below the lines of the methods")
+        if lang == "typescript":
+            return {name: "class Widget {\n" + "".join(f"  a{j} = {j};\n" for j in range(pad))
+                    + "".join(f"  m{i}() {{ return {i}; }}\n" for i in range(m["methods"])) + "}\n"}
+        return {name: "class Widget:\n" + "".join(f"    a{j} = {j}\n" for j in range(pad))
+                + "".join(f"    def m{i}(self):\n        return {i}\n\n" for i in range(m["methods"]))}
     if unit == "dry":
         dup = "".join(f"    v{i} = compute_{i}(a, b + {i}) * other_{i}(b)\n" for i in range(m["dup_lines"]))
-        return {"case_src.py": "def fa(a, b):\n    start_a(a)\n" + dup + "    finish_a(b, a)\n    return v0\n",
-                "other_src.py": "def fb(a, b):\n    begin_b(b, b)\n" + dup + "    done_b(a)\n    return [v1]\n"}
+        files = {"case_src.py": "def fa(a, b):\n    start_a(a)\n" + dup + "    finish_a(b, a)\n    return v0\n",
+                 "other_src.py": "def fb(a, b):\n    begin_b(b, b)\n" + dup + "    done_b(a)\n    return [v1]\n",
+                 "other2_src.py": "def fc(a, b):\n    open_c(a, a, b)\n" + dup + "    close_c(b)\n    return (v0, v1)\n"}
+        return {n: files[n] for n in DRY_FILES[:m.get("occurrences", 2)]}
+    if unit == "stringly-typed":
+        tup = ", ".join(json.dumps(v) for v in ST_VALUES[:m["values"]])
+        names = ["case_src.py", "other_src.py", "other2_src.py"][:m["occurrences"]]
+        return {n: f"def check_{i}(status):\n    if status in ({tup}):\n        return 1\n    return 0\n" for i, n in enumerate(names)}
     if unit == "magic-numbers":
         lines = ["def f(a):", "    total = a"]
         if "value" in m:
@@ -467,17 +516,43 @@ def gen_body(r, unit: str, lang: str, m: dict, fname: str, allow_invalid=True) -
         body[r.choice(u["guarded"])] = r.choice([0, 0, -1, -3, "four"])
     if not allow_invalid:  # a decoy section of another linter must stay valid (an invalid value there ends every run with exit 2)
         for opt in u.get("guarded", []):
+            low = 2 if opt == "min_values_for_enum" else 1
             if isinstance(body.get(opt), int):
-                body[opt] = max(body[opt], 1)
+                body[opt] = max(body[opt], low)
             for sub in body.values():
                 if isinstance(sub, dict) and isinstance(sub.get(opt), int):
-                    sub[opt] = max(sub[opt], 1)
+                    sub[opt] = max(sub[opt], low)
+    if unit == "stringly-typed":
+        keep_enum_range(body)
     return body
+
+
+def keep_enum_range(body: dict):
+    """stringly-typed: max_values_for_enum >= min_values_for_enum at the top level and in every language block (the guard that
+    relates the two options is not modelled)"""
+    def ints(d, k, default):
+        v = d.get(k, default)
+        return v if isinstance(v, int) and not isinstance(v, bool) else None
+    lo, hi = ints(body, "min_values_for_enum", 2), ints(body, "max_values_for_enum", 6)
+    if lo is not None and hi is not None and hi < lo:
+        if "max_values_for_enum" in body:
+            body["max_values_for_enum"] = lo
+        else:
+            body["min_values_for_enum"] = hi
+    for blk in body.values():
+        if isinstance(blk, dict):
+            blo = ints(blk, "min_values_for_enum", ints(body, "min_values_for_enum", 2))
+            bhi = ints(blk, "max_values_for_enum", ints(body, "max_values_for_enum", 6))
+            if blo is not None and bhi is not None and bhi < blo:
+                if "max_values_for_enum" in blk:
+                    blk["max_values_for_enum"] = blo
+                else:
+                    blk["min_values_for_enum"] = bhi
 
 
 def hit_list(unit: str, fname: str) -> list:
     """patterns that take the unit's input out of the run (dry compares two files: both)"""
-    return [fname, "other_src.py"] if unit == "dry" else [fname]
+    return [fname, "other_src.py", "other2_src.py"] if unit in ("dry", "stringly-typed") else [fname]
 
 
 def spell(r, unit: str) -> str:
@@ -547,6 +622,17 @@ def gen_case(r, i, unit=None) -> dict:
     if r.random() < 0.08:
         proj["ignore_file"] = hit_list(unit, fname) if r.random() < 0.5 else ["unrelated_name.py"]
     case = {"i": i, "unit": unit, "lang": lang, "via": via, "metrics": m, "proj": proj, "overrides": overrides, "fname": fname}
+    if not overrides and r.random() < 0.06:
+        # a non-mapping where the unit's section or a per-language block is expected (not combined with CLI threshold options,
+        # which write into those mappings: outside the modelled domain)
+        docs = [d for d in (proj["yaml"], proj["json"], proj["pyproject"], (proj["dash"] or {}).get("file")) if isinstance(d, dict)]
+        for d in docs:
+            for k in list(d):
+                if k.replace("-", "_") == unit.replace("-", "_") and r.random() < 0.7:
+                    if isinstance(d[k], dict) and u.get("lang_over") and r.random() < 0.6:
+                        d[k][r.choice([lang, lang, r.choice(LANGS)])] = r.choice(NONMAPS)
+                    else:
+                        d[k] = r.choice(NONMAPS)
     if u["cmd"] and r.random() < 0.07:
         to_subdir(case)
     return case
@@ -561,7 +647,7 @@ def to_subdir(case: dict) -> dict:
             return {k: ren(v) for k, v in x.items()}
         if isinstance(x, list):
             return [ren(v) for v in x]
-        return new if x == old else ("pkg/other_src.py" if x == "other_src.py" else x)
+        return new if x == old else ("pkg/" + x if x in ("other_src.py", "other2_src.py") else x)
     case["proj"] = ren(case["proj"])
     pj = case["proj"]
     if pj.get("yaml") is None and pj.get("pyproject") is None and not (pj.get("dash") and pj["dash"]["pos"] == "global"):
@@ -671,7 +757,7 @@ def boundary_cases():
                 if val > 0 and val < u.get("limit_floor", -99):
                     continue
                 lang = u["langs"][0]
-                m = {mm: METRIC_RANGE[mm][1] for _, mm, _ in u["limits"]}
+                m = focus_metrics(u, opt)
                 for _, mm in u.get("lists", []):
                     m[mm] = MAGIC_VALUES[-1]
                 body = {opt: val}
@@ -682,9 +768,9 @@ def boundary_cases():
                 n += 1
                 out.append({"i": f"bound:{unit}:{opt}:{val}", "unit": unit, "lang": lang, "via": "api", "metrics": m, "proj": proj,
                             "overrides": [], "fname": "case_src" + EXT[lang]})
-            if u.get("cli"):
+            if opt in (u.get("cli") or {}):
                 lang = u["langs"][0]
-                m = {mm: METRIC_RANGE[mm][1] for _, mm, _ in u["limits"]}
+                m = focus_metrics(u, opt)
                 proj = {"yaml": {unit: {"enabled": True}}, "json": None, "pyproject": None, "dash": None}
                 out.append({"i": f"bound:{unit}:{opt}:cli0", "unit": unit, "lang": lang, "via": "cli", "metrics": m, "proj": proj,
                             "overrides": [[u["cli"][opt], 0]], "fname": "case_src" + EXT[lang]})
@@ -695,7 +781,7 @@ def boundary_cases():
                 continue
             metric, direction = [(mm, dd) for o, mm, dd in u["limits"] if o == opt][0]
             for lang in u["langs"]:
-                m = {mm: METRIC_RANGE[mm][1] - 1 for _, mm, _ in u["limits"]}
+                m = focus_metrics(u, opt, -1)
                 strict, loose = (2, m[metric] + 3) if direction > 0 else (m[metric] + 3, 2)
                 body = {lang: {opt: strict}}
                 if not u.get("enabled_default", True):
@@ -720,7 +806,7 @@ def level_cases():
             for lang in u["langs"]:
                 for level in ("top", "block", "both"):
                     for bad in (0, -1, "four"):
-                        m = {mm: METRIC_RANGE[mm][1] - 1 for _, mm, _ in u["limits"]}
+                        m = focus_metrics(u, opt, -1)
                         for _, mm in u.get("lists", []):
                             m[mm] = MAGIC_VALUES[-1]
                         good = 2 if direction > 0 else m[metric] + 2   # valid and reporting
@@ -741,6 +827,68 @@ def level_cases():
                             proj[carrier] = {unit: body}
                         out.append({"i": f"level:{unit}:{lang}:{opt}:{level}:{bad}", "unit": unit, "lang": lang, "via": via, "metrics": m,
                                     "proj": proj, "overrides": [], "fname": "case_src" + EXT[lang]})
+    return out
+
+
+NONMAPS = [5, "x", [1], True]
+
+
+def _unit_sections(case: dict):
+    """the entries of every carrier that are the unit's section under either spelling"""
+    p = case["proj"]
+    for d in (p.get("yaml"), p.get("json"), p.get("pyproject"), (p.get("dash") or {}).get("file")):
+        if isinstance(d, dict):
+            for k, sec in d.items():
+                if k.replace("-", "_") == case["unit"].replace("-", "_"):
+                    yield sec
+
+
+def has_nonmap_section(case: dict) -> bool:
+    return any(not isinstance(sec, dict) for sec in _unit_sections(case))
+
+
+def has_nonmap_block(case: dict) -> bool:
+    return any(isinstance(sec, dict) and any(l in sec and not isinstance(sec[l], dict) for l in LANGS) for sec in _unit_sections(case))
+
+
+def nonmap_cases():
+    """something other than a mapping where a section or a per-language block is expected: every unit x each kind of
+    non-mapping value for the section (spellings and carriers in rotation); for the units with per-language blocks the block of
+    the file's language and the block of another language"""
+    out, n = [], 0
+    carriers = ["yaml", "json", "pyproject", "dash"]
+    for unit, u in UNITS.items():
+        lang = u["langs"][0]
+        opt0 = u["limits"][0][0] if u.get("limits") else None
+        m = focus_metrics(u, opt0)
+        for _, mm in u.get("lists", []):
+            m[mm] = MAGIC_VALUES[-1]
+        for _, mm in u.get("switches", []):
+            m[mm] = 1
+        for mm in u.get("always", []):
+            m[mm] = 1
+        docs = [(f"section:{v!r}", {(unit if i % 2 == 0 else unit.replace("-", "_")): v}) for i, v in enumerate(NONMAPS)]
+        if u.get("lang_over"):
+            on = {} if u.get("enabled_default", True) else {"enabled": True}
+            other = [l for l in LANGS if l != lang][n % 3]
+            docs += [(f"block:own:{v!r}", {unit: {**on, lang: v}}) for v in NONMAPS[:3]]
+            docs += [(f"block:other:{other}", {unit: {**on, other: NONMAPS[n % 3]}})]
+            if opt0:
+                docs += [("block:own-with-limit", {unit: {**on, opt0: max(2, u.get("limit_floor", 2)), lang: 7}})]
+        for tag, doc in docs:
+            carrier = carriers[n % 4]
+            n += 1
+            if carrier == "dash" and not u["cmd"]:
+                carrier = "json"
+            proj = {"yaml": None, "json": None, "pyproject": None, "dash": None}
+            via = "api"
+            if carrier == "dash":
+                proj["dash"] = {"pos": "cmd", "suffix": ".yaml", "file": doc}
+                via = "cli"
+            else:
+                proj[carrier] = doc
+            out.append({"i": f"nonmap:{unit}:{tag}:{carrier}", "unit": unit, "lang": lang, "via": via, "metrics": dict(m), "proj": proj,
+                        "overrides": [], "fname": "case_src" + EXT[lang]})
     return out
 
 
@@ -830,7 +978,13 @@ def in_defect_class(flag: str, case: dict) -> bool:
         return False
     if flag == "thailint_json_is_not_a_root_marker":
         return bool(p.get("subdir")) and p.get("yaml") is None and p.get("pyproject") is None and not (dash and dash["pos"] == "global")
+    if kind in ("language_block_value_not_validated", "non_mapping_section_crashes"):
+        return case["unit"] == arg and (has_nonmap_section(case) if kind == "non_mapping_section_crashes" else True)
+    if flag == "non_mapping_language_block_crashes":
+        return has_nonmap_block(case)
     if flag == "wrong_type_swallowed":
+        if has_nonmap_section(case) or has_nonmap_block(case):
+            return True     # calling .get on a non-mapping raises AttributeError, swallowed the same way
         docs = [p.get("yaml"), p.get("json"), p.get("pyproject"), (dash or {}).get("file")]
         return any(isinstance(v, str) for d in docs if isinstance(d, dict) for sec in d.values() if isinstance(sec, dict)
                    for v in list(sec.values()) + [x for sub in sec.values() if isinstance(sub, dict) for x in sub.values()])
@@ -843,7 +997,7 @@ def corpus_cases():
     for p in sorted(d.glob("*.json")):
         c = json.loads(p.read_text())
         c["i"] = "corpus:" + p.stem
-        out.append(c)
+        out.append(normalise(c))
     return out
 
 
@@ -877,10 +1031,11 @@ def run(tier: str, seed: int, replay: str | None = None) -> int:
     load_known_d(chk)
     chk.rule = ("a case = project (parsed document per carrier .thailint.yaml/.thailint.json/pyproject [tool.thailint]/--config file in command or "
                 "root-group position, each possibly absent/unparsable, --config also missing or with an unsupported suffix) x unit (documented section "
-                "in hyphen or underscore spelling + the rule that must honour it, 17 units) x language x CLI threshold options x measures of the rendered "
+                "in hyphen or underscore spelling + the rule that must honour it, 18 units) x language x CLI threshold options x measures of the rendered "
                 "source.  Systematic part: every unit x spelling x carrier with `enabled` flipped; random part: sections with limits swept around the "
                 "measure (measure-1, measure, measure+1, ...), switches, allowed-number lists, per-language sub-sections, per-linter and top-level ignore "
-                "lists, decoy sections, competing carriers with different values, non-positive and wrong-typed limits.  Run through the real CLI "
+                "lists, decoy sections, competing carriers with different values, non-positive and wrong-typed limits, non-mappings where a section or a "
+                "per-language block is expected (every unit x number/string/list/bool), srp max_loc and dry/stringly-typed min_occurrences sweeps.  Run through the real CLI "
                 "(exit code + --format json) or the in-process Orchestrator(project_root).  Non-trivial: some carrier sets an option of the unit or an ignore "
                 "list, or a carrier is broken, or a CLI threshold option is given; distinct = distinct abstract case")
     chk.trusted_base += [
@@ -888,17 +1043,19 @@ def run(tier: str, seed: int, replay: str | None = None) -> int:
         "each linter's analysis of the source text is abstracted to probes over measures of the rendered source (Model/Config.v unit_probes: depth > limit, methods >= min, ...); "
         "the renderer producing a source with exactly those measures and the probe semantics are validated by this correspondence only (exact verdict theorems are C01/C02/C03/C16)",
         "path pattern matching of ignore lists is exercised with exact file names only (fnmatch / Path.match / substring all agree there)",
-        "project-root detection, .thailintignore, sections of other linters holding invalid values, and non-mapping sections are outside the modelled domain",
+        "outside the modelled domain: sections of other linters holding invalid values, a CLI threshold option together with a non-mapping per-language block, "
+        "guards relating two options (stringly-typed max_values_for_enum >= min_values_for_enum, kept satisfied by the generator), YAML null as a section, "
+        "file-placement runs; root detection is modelled only as 'project directory vs. the linted file's sub-directory'",
     ]
     chk.build(["theories/Props/C05.v"], ["ConfigGen"], known_v=["theories/Props/C05Known.v"])
     flags = actual_flags()
     scale = chk.budget_scale()
     if replay:
         rep = json.loads(Path(replay).read_text())
-        cases = [rep["violation"]["case"]] if "case" in rep.get("violation", {}) else []
+        cases = [normalise(rep["violation"]["case"])] if "case" in rep.get("violation", {}) else []
     else:
         n_rand = (480 if tier == "quick" else 5200) * min(scale, 3)
-        cases = (corpus_cases() + boundary_cases() + level_cases() + carrier_cases(seed) + layout_cases()
+        cases = (corpus_cases() + boundary_cases() + level_cases() + carrier_cases(seed) + layout_cases() + nonmap_cases()
                  + matrix_cases(seed, 0.45 if tier == "quick" else 1.0) + gen_cases(seed, n_rand))
         if tier == "quick":  # cap the number of CLI subprocesses: turn surplus option-free CLI cases into library runs
             budget = 200 * min(scale, 2)
